@@ -11,6 +11,7 @@ mod courier;
 mod sc_agg;
 mod sc_codec;
 mod sc_compat;
+mod sc_conc;
 mod sc_crypt;
 mod sc_ident;
 mod sc_pok;
@@ -28,6 +29,7 @@ fn install_panic_hook() {
             eprintln!("harness panic at {}: {}", loc, info);
         }
         simtypes::note_panic(loc);
+        kernel::conc::panic_started();
     }));
 }
 
@@ -351,20 +353,34 @@ fn cmd_digest(id: &str, tier: Tier, nthreads: usize) -> i32 {
 /// scenario sets a tick.
 struct TickAlloc;
 unsafe impl std::alloc::GlobalAlloc for TickAlloc {
+    // every allocation and deallocation is also an EVENT of the calling thread for the thread scheduler of
+    // kernel::conc (a no-op unless the thread is a caller thread of a scheduled session); the thread is never
+    // preempted while it is inside the system allocator
     unsafe fn alloc(&self, l: std::alloc::Layout) -> *mut u8 {
         kernel::seams::on_alloc();
-        std::alloc::System.alloc(l)
+        kernel::conc::alloc_enter();
+        let p = std::alloc::System.alloc(l);
+        kernel::conc::alloc_exit();
+        p
     }
     unsafe fn dealloc(&self, p: *mut u8, l: std::alloc::Layout) {
-        std::alloc::System.dealloc(p, l)
+        kernel::conc::alloc_enter();
+        std::alloc::System.dealloc(p, l);
+        kernel::conc::alloc_exit();
     }
     unsafe fn alloc_zeroed(&self, l: std::alloc::Layout) -> *mut u8 {
         kernel::seams::on_alloc();
-        std::alloc::System.alloc_zeroed(l)
+        kernel::conc::alloc_enter();
+        let p = std::alloc::System.alloc_zeroed(l);
+        kernel::conc::alloc_exit();
+        p
     }
     unsafe fn realloc(&self, p: *mut u8, l: std::alloc::Layout, n: usize) -> *mut u8 {
         kernel::seams::on_alloc();
-        std::alloc::System.realloc(p, l, n)
+        kernel::conc::alloc_enter();
+        let q = std::alloc::System.realloc(p, l, n);
+        kernel::conc::alloc_exit();
+        q
     }
 }
 #[global_allocator]
